@@ -65,6 +65,18 @@ CHECKS = {
         "drained by the harness, the pause/resume path is exercised with small read-buffer limits.",
         "5/C03",
     ),
+    "C10": (
+        "exploration",
+        "fuzzing + boundary enumeration: Hypothesis structure-aware mutation (and, thorough, Atheris coverage-guided "
+        "campaigns) of HTTP streams with the oracle 'only HttpProcessingError may leave feed_data/feed_eof and every "
+        "delivered request is usable'; exhaustive limit-1/limit/limit+1 grid over every syntactic position x limit "
+        "configuration x every single cut; deterministic line-event work counter at n, 2n, 4n",
+        "Totality is searched with generated hostile inputs; limit enforcement is decided on a complete grid of positions, "
+        "configurations and cut points with a known expected verdict; work growth is measured without a clock.",
+        "Trusts the stated reading of the limits (line without CRLF, whole header line = field); Python line events "
+        "stand in for work; the C parser back end is out of reach.",
+        "5/C10",
+    ),
 }
 
 REASON_PENDING = "check not built yet in this round (design in DESIGN.md section 5); not claimed until it runs quietly on the unchanged tree"
